@@ -4,6 +4,8 @@ package stream
 
 import (
 	"github.com/rulego/streamsql/internal/zzverif"
+	"github.com/rulego/streamsql/logger"
+	"github.com/rulego/streamsql/metrics"
 	"github.com/rulego/streamsql/types"
 )
 
@@ -162,5 +164,86 @@ func VerifC07Sort() {
 			}
 			zzverif.Assert(zzverif.Or(c < 0, zzverif.And(c == 0, kept < id)), "limit-keeps-the-first-rows-of-the-order")
 		}
+	}
+}
+
+// VerifC07Pipeline: the whole post-aggregation tail (DataProcessor.processAggregationResults: DISTINCT
+// -> HAVING -> hidden-column strip -> ORDER BY -> LIMIT -> delivery) on a batch of result rows. The
+// delivered batch is the rows of the batch that are distinct and satisfy HAVING, in ORDER BY order,
+// cut to LIMIT: min(LIMIT, survivors) rows - whatever DISTINCT and LIMIT do to each other.
+// (With DISTINCT the counts are enumerated, not symbolic: DISTINCT keys rows by encoding/json.Marshal,
+// which is executed natively and needs concrete values; without DISTINCT they are symbolic.)
+func VerifC07Pipeline() {
+	m := zzverif.Param("rows", 3)
+	distinct := zzverif.Param("distinct", 1) == 1
+	having := zzverif.Param("having", 1) == 1
+	order := zzverif.Param("order", 0) == 1
+	limit := zzverif.Choose("limit", m+1) // 0 = none
+	s := &Stream{log: logger.NewDiscardLogger(), mOutput: metrics.NewCounter("output"), resultChan: make(chan []map[string]any, 4)}
+	s.config.Distinct = distinct
+	if having {
+		s.config.Having = "c > 1"
+	}
+	if order {
+		s.config.OrderBy = []types.OrderByField{{Expression: "c", Direction: types.SortDesc}}
+	}
+	s.config.Limit = limit
+	type rv struct {
+		g string
+		c int
+	}
+	in := make([]rv, m)
+	rows := make([]map[string]any, m)
+	for i := range rows {
+		cv := 0
+		if distinct {
+			cv = zzverif.Choose("c", 4)
+		} else {
+			cv = int(zzverif.NondetU64("c", 3)) // symbolic when no JSON key is needed
+		}
+		in[i] = rv{[]string{"a", "b"}[zzverif.Choose("g", 2)], cv}
+		rows[i] = map[string]any{"g": in[i].g, "c": in[i].c}
+	}
+	// reference
+	var want []rv
+	for i, r := range in {
+		dup := false
+		if distinct {
+			for j := 0; j < i; j++ {
+				if in[j] == r {
+					dup = true
+				}
+			}
+		}
+		if dup || having && !(r.c > 1) {
+			continue
+		}
+		want = append(want, r)
+	}
+	if order { // stable, descending by c
+		for i := 1; i < len(want); i++ {
+			for j := i; j > 0 && want[j-1].c < want[j].c; j-- {
+				want[j-1], want[j] = want[j], want[j-1]
+			}
+		}
+	}
+	if limit > 0 && len(want) > limit {
+		want = want[:limit]
+	}
+	(&DataProcessor{stream: s}).processAggregationResults(rows)
+	var got []map[string]any
+	select {
+	case got = <-s.resultChan:
+	default:
+	}
+	zzverif.Observe("delivered", int64(len(got)))
+	zzverif.Assert(len(got) == len(want), "batch-has-min-limit-survivors-rows")
+	if len(got) != len(want) {
+		return
+	}
+	for i, w := range want {
+		g, _ := got[i]["g"].(string)
+		c, ok := got[i]["c"].(int)
+		zzverif.Assert(ok && g == w.g && c == w.c, "batch-is-distinct-having-order-limit-of-the-input")
 	}
 }
